@@ -145,9 +145,15 @@ def solve_sylvester_2nd_quant(
         diagonal Hamiltonian blocks.
 
     """
-    eigs = tuple(
-        [NumberOrderedForm.from_expr(eig) for eig in eig_block] for eig_block in eigs
-    )
+    # An identically zero block of H_0 comes as a 0-d array; its size is only known from
+    # the right hand sides, so it is filled in by the solver below.
+    eigs = [
+        [
+            NumberOrderedForm.from_expr(eig)
+            for eig in (eig_block if np.ndim(eig_block) else ())
+        ]
+        for eig_block in eigs
+    ]
     if any(not eig.is_particle_conserving() for eig_block in eigs for eig in eig_block):
         raise ValueError(
             "The diagonal Hamiltonian blocks must contain only number-conserving expressions."
